@@ -39,6 +39,8 @@ type Ctx struct {
 	LibPkgs []string
 
 	eff     *effEngine
+	rng     *rangeEngine
+	scratch map[string]interface{}
 	tables  *tableEval
 	declDoc map[*ssa.Function]string
 }
@@ -87,7 +89,7 @@ func loadWith(repo, tier, goarch string, tests bool, minLib int) (*Ctx, error) {
 	prog.Build()
 	c := &Ctx{Repo: abs, Tier: tier, GoArch: goarch, Pkgs: pkgs, Prog: prog, Fset: prog.Fset,
 		PkgBy: map[string]*packages.Package{}, SSABy: map[string]*ssa.Package{}, FuncBy: map[string]*ssa.Function{},
-		declDoc: map[*ssa.Function]string{}}
+		declDoc: map[*ssa.Function]string{}, scratch: map[string]interface{}{}}
 	for _, p := range pkgs {
 		if p.Module != nil && c.ModPath == "" {
 			c.ModPath = p.Module.Path
